@@ -2980,7 +2980,10 @@ class MemoryObjectStore(PackCapableObjectStore):
                     # ``add_thin_pack`` already validates via
                     # ``PackStreamCopier.verify``; do the equivalent here.
                     p.check()
-                    for obj in PackInflater.for_pack_data(p, self.get_raw):
+                    # Inflate everything before adding anything: a pack that
+                    # fails half way through must not leave objects behind.
+                    objects = list(PackInflater.for_pack_data(p, self.get_raw))
+                    for obj in objects:
                         self.add_object(obj)
                 finally:
                     p.close()
